@@ -7,7 +7,7 @@ SEQ_ASSUME = [
     "documents are observed through the public read API only; SQLite and go-sqlite3 are trusted",
 ]
 
-def seq(tests, qchecks=250, tchecks=6000, qshards=8, per_test=None, **extra):
+def seq(tests, qchecks=600, tchecks=6000, qshards=8, per_test=None, **extra):
     d = {
         "tests": tests,
         "level": "exploration",
@@ -22,27 +22,27 @@ def seq(tests, qchecks=250, tchecks=6000, qshards=8, per_test=None, **extra):
     d.update(extra)
     return d
 
-SCRIPT = (4, 60, 16, 1500)   # scheduled scripts: cheap per case, fewer cases
+SCRIPT = (4, 120, 16, 1500)   # scheduled scripts: cheap per case, fewer cases
 
 CHECKS = {
     "C01": seq(["TestC01"]),
     "C02": seq(["TestC02Seq", "TestC02Race"], per_test={"TestC02Race": SCRIPT}),
-    "C03": seq(["TestC03"], qchecks=60, tchecks=3000, qshards=8),
+    "C03": seq(["TestC03"], qchecks=150, tchecks=3000, qshards=8),
     "C04": seq(["TestC04Clock", "TestC04Bucket", "TestC04Reopen"], per_test={"TestC04Clock": (2, 3000, 8, 200000), "TestC04Reopen": (4, 40, 16, 1500)}),
     "C05": seq(["TestC05"]),
     "C06": seq(["TestC06"]),
     "C07": seq(["TestC07"]),
     "C08": seq(["TestC08Seq", "TestC08Order"], per_test={"TestC08Order": SCRIPT}),
     "C09": seq(["TestC09Seq", "TestC09Gap"], per_test={"TestC09Gap": SCRIPT}),
-    "C10": seq(["TestC10"], qchecks=14, tchecks=150, level="fault_enumeration"),
-    "C11": seq(["TestC11"], qchecks=60, tchecks=1500),
-    "C12": seq(["TestC12"], qchecks=80, tchecks=1200),
-    "C13": seq(["TestC13", "TestC13Race"], qchecks=200, tchecks=4000, qshards=4),
+    "C10": seq(["TestC10"], qchecks=40, tchecks=150, level="fault_enumeration"),
+    "C11": seq(["TestC11"], qchecks=150, tchecks=1500),
+    "C12": seq(["TestC12"], qchecks=200, tchecks=1200),
+    "C13": seq(["TestC13", "TestC13Race"], qchecks=400, tchecks=4000, qshards=4),
     "C14": seq(["TestC14", "TestC14Window"], qchecks=1, tchecks=6, qshards=4, per_test={"TestC14Window": (3, 3, 9, 12)}),
-    "C15": seq(["TestC15"], qchecks=12, tchecks=400, qshards=8),
+    "C15": seq(["TestC15"], qchecks=20, tchecks=400, qshards=8),
     "C17": seq(["TestC17"]),
-    "C18": seq(["TestC18Seq", "TestC18Race"], per_test={"TestC18Race": SCRIPT}),
+    "C18": seq(["TestC18Seq", "TestC18Race"], qchecks=400, per_test={"TestC18Race": SCRIPT}),
     "C19": seq(["TestC19"]),
-    "C20": seq(["TestC20"], qchecks=2, tchecks=40, qshards=6),
-    "C16": seq(["TestC16"], qchecks=8, tchecks=300, qshards=6),
+    "C20": seq(["TestC20"], qchecks=3, tchecks=40, qshards=6),
+    "C16": seq(["TestC16"], qchecks=20, tchecks=300, qshards=6),
 }
